@@ -179,7 +179,7 @@ func TestC04(t *testing.T) {
 	}
 	n := run.N(6000, 150000)
 	f := run.Check("grammars", n, 8, func(rt *rapid.T, fail ev.FailFunc) {
-		o := cfggen.Opts{Shapes: true, Styles: true}
+		o := cfggen.Opts{Shapes: true, Styles: true, HugePct: 1}
 		roll := rapid.IntRange(0, 99).Draw(rt, "mix")
 		o.Sugar = roll < 25
 		o.Prec = roll >= 70
